@@ -35,6 +35,8 @@ func appForMax(max int) int {
 		return kAppMax2
 	case 3:
 		return kAppMax3
+	case 4:
+		return kAppMax4
 	case 6:
 		return kAppMax6
 	}
@@ -72,7 +74,7 @@ func (w *World) chooseEntropies(app int, max int, ids []int) map[int]pc.Relay {
 }
 
 // maxDistinct: how many distinct proofs a scenario with this allowance may use.  The code sizes
-// the filter for `max` elements (10 bits for 1, 20 for 2, 29 for 3, 58 for 6; 7 hash functions)
+// the filter for `max` elements (10 bits for 1, 20 for 2, 29 for 3, 39 for 4, 58 for 6; 7 hash functions)
 // and racing relays can add every proof of the scenario to one shared filter, so beyond these
 // numbers no choice of entropies avoids false positives.
 func maxDistinct(max int) int {
@@ -83,6 +85,8 @@ func maxDistinct(max int) int {
 		return 4
 	case 3:
 		return 5
+	case 4:
+		return 6
 	}
 	return 8
 }
@@ -499,7 +503,7 @@ func traceConc(out string, n int, big bool) {
 		hx.Fatal("%v", err)
 	}
 	rng := hx.Rng(34)
-	maxes := []int{1, 2, 3, 6}
+	maxes := []int{1, 2, 3, 4, 6}
 	for t := 0; t < n; t++ {
 		nrel := 2 + rng.Intn(3)
 		if big {
